@@ -3,6 +3,7 @@ package checks
 import (
 	"fmt"
 	"go/ast"
+	"go/token"
 	"go/types"
 	"sort"
 	"strings"
@@ -123,6 +124,46 @@ func checkC20(p *core.Program, r *core.Report) {
 			}
 		}
 	}
+	// general form: in every activation reached from Run, a closure whose body calls ListenAndServe on a captured variable
+	// starts whatever that variable is bound to in the activation (a parameter's argument, or a server built there)
+	ev.WalkActivations(func(act *tf.Eval) {
+		for _, b := range act.Fn.Blocks {
+			for _, in := range b.Instrs {
+				mc, ok := in.(*ssa.MakeClosure)
+				if !ok {
+					continue
+				}
+				cl, _ := mc.Fn.(*ssa.Function)
+				if cl == nil {
+					continue
+				}
+				for _, cb := range cl.Blocks {
+					for _, ci := range cb.Instrs {
+						c, ok := ci.(*ssa.Call)
+						if !ok || c.Common().StaticCallee() == nil || c.Common().StaticCallee().String() != "(*net/http.Server).ListenAndServe" || len(c.Common().Args) == 0 {
+							continue
+						}
+						recv := c.Common().Args[0]
+						if u, isLoad := recv.(*ssa.UnOp); isLoad && u.Op == token.MUL {
+							recv = u.X
+						}
+						for k, fv := range cl.FreeVars {
+							if ssa.Value(fv) != recv || k >= len(mc.Bindings) {
+								continue
+							}
+							t := act.Term(mc.Bindings[k])
+							if at := act.AllocType(t); at != nil {
+								if _, isPtr := at.(*types.Pointer); isPtr { // the captured variable's cell: take what it holds
+									t = act.Deref(t)
+								}
+							}
+							started[t.Key()] = true
+						}
+					}
+				}
+			}
+		}
+	})
 	var prover, metrics *srv
 	for k := range servers {
 		s := servers[k]
